@@ -4,6 +4,8 @@ from vlib import common as C
 from vlib.diff import Case, run_batch, san_site
 
 LEVEL = "proof"
+# C functions this check's models mirror (source-text fingerprints are recorded in the evidence, see translate/funchash.py)
+MODELLED_FUNCS = {'src/kv/iwal.c': ['_last_fix_and_reset_points', '_rollforward_exl', '_recover_wl', '_write_wl', '_flush_wl']}
 MANIFEST = dict(
     level="proof",
     text=("Lean 4 theorems over an executable byte-level model of the WAL pre-scan (_last_fix_and_reset_points) and roll-forward "
